@@ -61,6 +61,10 @@ CHECKS = {
    text='For every compiled Model and LinearModel of the family (M1, seeded M(3) with names, seeded L(3,3) with coefficients 1e-9..1e9, offsets, satisfy) the real to_string() text must parse, type-check and compile, and the re-compiled linear model must have the same projection on the original variables and the same best objective, decided by z3 for all assignments.',
    note='Meaning part only; row-for-row identity and the render-compile-render fixpoint are not claimed (no value quantifier). Family restricted to well-typed models (no numeric literal in a logic position). Known finding F-bounds-float-cancellation on ill-conditioned rows.',
    ref='DESIGN §3 C12'),
+ 'C16': dict(cat=TV, tech='the same generator tree pushed through every real front door; pairwise projection equivalence of the compiled linear models decided by z3 (exists/forall), shared verdict/optimum judged against the source by z3 oracle queries',
+   text='For every family member the model is built through the fluent builder (operator overloads, helper functions, three call orders), as source text through RoocParser+Linearizer, through PipeRunner and through RoocSolver; z3 decides for all assignments that all compiled linear models have the same projection on the declared variables and best objective; all doors must accept or all reject, and agree on verdict and optimum, which is additionally judged against the source semantics (no better assignment / no satisfying assignment).',
+   note='Equivalence part is solver-decided; row-for-row identity, call-order identity and the read-back clauses (var_value, numeric_value, eval, unused variables inside their domain) are evaluations at one point, reported separately in the evidence. Outside: builder macros, API-supplied constants.',
+   ref='DESIGN §3 C16'),
 }
 NA = {
  'C04': 'no value quantifier: every clause evaluates one returned point; the solver bridges (microlp, Clarabel, IndexMap) cannot be executed symbolically (DESIGN §3 C04); its premises are still evaluated inside C03/C05/C15',
